@@ -78,4 +78,86 @@ WellFormedSnps(seqs, maxMissingNum, maxMissingDen) ==
    /\ \A col \in {ColumnsOf(seqs)[j] : j \in 1..(IF Len(seqs) = 0 THEN 0 ELSE Len(seqs[1]))} :
          /\ Cardinality({col[i] : i \in 1..Len(col)} \cap {65, 67, 71, 84}) >= 2
          /\ Cardinality({i \in 1..Len(col) : col[i] \notin {65, 67, 71, 84}}) * maxMissingDen <= maxMissingNum * Len(col)
+
+(***************************************************************************)
+(* ska lo (C17, C18)                                                       *)
+(***************************************************************************)
+\* ---- C17 precondition: contiguous (k-1)-mers unique per ancestor position and strand over all
+\* derived samples, none its own reverse complement; sites >= 2k apart and >= k inside a record
+MerAt(seq, i, n) == [j \in 1..n |-> Enc(seq[i + j - 1])]
+ValidMer(seq, i, n) == \A j \in i..(i + n - 1) : IsBase(seq[j])
+MerKP(samples, n) ==
+   UNION {UNION {{ LET d == MerAt(r.seq, i, n)  rcd == RevComp(d)  flip == LexLess(rcd, d)
+                       apos == IF r.rev THEN r.off + Len(r.seq) - (i - 1) - n ELSE r.off + i - 1
+                   IN <<IF flip THEN rcd ELSE d, apos, flip # r.rev, rcd = d>> :
+                   i \in {x \in 1..(Len(r.seq) + 1 - n) : ValidMer(r.seq, x, n)}} :
+                 r \in {samples[s][x] : x \in 1..Len(samples[s])}} : s \in 1..Len(samples)}
+MersUniquePerPosition(samples, n) ==
+   LET kp == MerKP(samples, n) IN
+   /\ \A q \in kp : ~q[4]
+   /\ Cardinality({q[1] : q \in kp}) = Cardinality(kp)
+
+SpacedSites(sites, samples, gap, margin) ==
+   /\ \A i \in 1..Len(sites) : \A j \in 1..Len(sites) : i # j =>
+         (IF sites[i] > sites[j] THEN sites[i] - sites[j] ELSE sites[j] - sites[i]) >= gap
+   /\ \A i \in 1..Len(sites) : \A s \in 1..Len(samples) :
+         \E r \in {samples[s][x] : x \in 1..Len(samples[s])} :
+            sites[i] - r.off >= margin /\ (r.off + Len(r.seq) - 1) - sites[i] >= margin
+
+Pre17(sites, samples, k) == MersUniquePerPosition(samples, k - 1) /\ SpacedSites(sites, samples, 2 * k, k)
+
+\* ---- C17 reference mode: VCF records and pseudo-genomes (reference = the ancestor) ----------
+\* vcf: tuple of [pos (1-based), ref (byte), alts (tuple of bytes), gts (tuple of ints, -1 = '.')]
+LoVcfOK(ancestor, sites, alleles, vcf) ==
+   LET vs == VariableSites(alleles) IN
+   /\ {vcf[i].pos : i \in 1..Len(vcf)} = {sites[i] + 1 : i \in vs}
+   /\ Len(vcf) = Cardinality(vs)
+   /\ \A i \in 1..Len(vcf) :
+         LET r == vcf[i]
+             si == CHOOSE x \in vs : sites[x] + 1 = r.pos
+         IN /\ r.ref = ancestor[r.pos]
+            /\ Len(r.gts) = Len(alleles[si])
+            /\ \A s \in 1..Len(r.gts) :
+                  /\ r.gts[s] >= 0 /\ r.gts[s] <= Len(r.alts)
+                  /\ (IF r.gts[s] = 0 THEN r.ref ELSE r.alts[r.gts[s]]) = alleles[si][s]
+PseudoOK(ancestor, sites, alleles, pseudo) ==
+   \A s \in 1..Len(pseudo) :
+      pseudo[s] = [p \in 1..Len(ancestor) |-> AlleleAt(ancestor, sites, alleles, s, p - 1)]
+
+\* ---- C18: indel records ----------------------------------------------------------------------
+\* a record: [before, ref, alt, after (byte tuples, <<>> for '-'), gts (tuple of strings "0","1","0/1",".")]
+IsSubseqAt(sub, seq, i) == \A j \in 1..Len(sub) : seq[i + j - 1] = sub[j]
+Occurs(sub, seq) == Len(sub) <= Len(seq) /\ \E i \in 1..(Len(seq) + 1 - Len(sub)) : seq[i] = sub[1] /\ IsSubseqAt(sub, seq, i)
+OccursInSample(sub, recs) ==        \* on either strand of any record of the sample
+   \E x \in 1..Len(recs) : Occurs(sub, recs[x].seq) \/ Occurs(RevCompBytes(sub), recs[x].seq)
+
+\* the record describes a real difference and genotypes every sample for exactly what it carries
+RecordReal(rec, samples) ==
+   LET refSeq == rec.before \o rec.ref \o rec.after
+       altSeq == rec.before \o rec.alt \o rec.after
+   IN \A s \in 1..Len(samples) :
+         LET hasRef == OccursInSample(refSeq, samples[s])
+             hasAlt == OccursInSample(altSeq, samples[s])
+             g == rec.gts[s]
+         IN /\ (g = "0") = (hasRef /\ ~hasAlt)
+            /\ (g = "1") = (hasAlt /\ ~hasRef)
+            /\ (g = "0/1") = (hasRef /\ hasAlt)
+            /\ (g = ".") = (~hasRef /\ ~hasAlt)
+
+\* planted indels: [len, seq (the inserted/deleted bases, ancestor strand), long (set of samples carrying the LONG form)]
+Rotations(x) == {[j \in 1..Len(x) |-> x[((j + r - 1) % Len(x)) + 1]] : r \in 0..(Len(x) - 1)}
+LongForm(rec) == IF Len(rec.ref) >= Len(rec.alt) THEN "ref" ELSE "alt"
+LongSamples(rec) == {s \in 1..Len(rec.gts) : rec.gts[s] = (IF LongForm(rec) = "ref" THEN "0" ELSE "1")}
+LongAllele(rec) == IF LongForm(rec) = "ref" THEN rec.ref ELSE rec.alt
+ShortAllele(rec) == IF LongForm(rec) = "ref" THEN rec.alt ELSE rec.ref
+Consistent(rec, ind) ==
+   /\ ShortAllele(rec) = <<>>
+   /\ Len(LongAllele(rec)) = ind.len
+   /\ (LongAllele(rec) \in Rotations(ind.seq) \/ RevCompBytes(LongAllele(rec)) \in Rotations(ind.seq))
+   /\ LongSamples(rec) = {ind.long[i] : i \in 1..Len(ind.long)}
+\* every record is one planted indel, no planted indel is reported twice
+RecordsMatchPlanted(recs, planted) ==
+   \E f \in [1..Len(recs) -> 1..Len(planted)] :
+      /\ \A i \in 1..Len(recs) : \A j \in 1..Len(recs) : i # j => f[i] # f[j]
+      /\ \A i \in 1..Len(recs) : Consistent(recs[i], planted[f[i]])
 =============================================================================
